@@ -73,9 +73,8 @@ try:
                 else:
                     open(gm, 'w').write('module demo\n\ngo 1.23\n\nrequire github.com/csgura/fp v0.0.0\n\nreplace github.com/csgura/fp => %s/%s\n' % (W, name))
                 shutil.copy('/repo/go.sum', os.path.join(work, 'go.sum'))
-                rc, out = sh('go run . 2>&1 | tail -15', cwd=work)
-                rc2, _ = sh('go run . >/dev/null 2>&1', cwd=work)
-                demo_results[name] = 'fail' if (rc2 != 0 or 'VIOLATION' in out) else 'pass'
+                rc, out = sh('go run . %s/%s 2>&1 | tail -15' % (W, name), cwd=work)
+                demo_results[name] = 'fail' if ('VIOLATION' in out or 'exit status' in out) else 'pass'
     meta['demo_result'] = demo_results
     # the checks
     meta['checks'] = {}
